@@ -193,6 +193,7 @@ type group struct {
 	src     source
 	pkgs    []*extractor.Package
 	mutated bool
+	stream  string // overrides the stream name (generated SBOM documents)
 	own     bool // the file belongs to the extractor's own testdata, or its FileRequired accepted it
 }
 
@@ -204,6 +205,7 @@ type harvester struct {
 	curRoot       string
 	curMut        []string
 	curContent    string
+	curStream     string
 	emptied       map[string]bool
 	repo          string
 	perExtractor  map[string]int
@@ -256,7 +258,7 @@ func (w *wrapExt) Extract(ctx context.Context, input *filesystem.ScanInput) (inv
 		w.h.extractErrs++
 	}
 	if len(inv.Packages) > 0 {
-		w.h.groups = append(w.h.groups, group{ext: w, pkgs: inv.Packages, mutated: w.h.curMut != nil, own: w.own || w.h.curMut != nil,
+		w.h.groups = append(w.h.groups, group{ext: w, pkgs: inv.Packages, mutated: w.h.curMut != nil, own: w.own || w.h.curMut != nil, stream: w.h.curStream,
 			src: source{Extractor: w.Name(), Root: w.h.curRoot, Path: input.Path, Mutations: w.h.curMut, Content: S(w.h.curContent)}})
 		w.h.perExtractor[w.Name()] += len(inv.Packages)
 	}
@@ -932,6 +934,7 @@ func main() {
 	perCase := flag.Int("percase", 12, "packages per inventory handed to the converters")
 	nMut := flag.Int("mutants", 150, "mutated fixtures")
 	nSynth := flag.Int("synth", 150, "synthetic inventories")
+	nSbom := flag.Int("sbomdocs", 40, "generated CycloneDX/SPDX documents scanned with the SBOM extractors")
 	maxPkgs := flag.Int("maxpkgs", 4000, "overall cap on harvested packages")
 	emptiedFile := flag.String("emptied", "/root/.vp/EMPTIED_FILES.txt", "list of emptied fixture files to skip")
 	typesJSON := flag.String("types", "", "purltypes JSON (emitted types for the synthetic stream)")
@@ -1034,6 +1037,7 @@ func main() {
 		os.RemoveAll(root)
 	}
 	h.curMut, h.curContent = nil, ""
+	h.harvestSbomDocs(r, *nSbom, tmp)
 
 	// cases from harvested groups
 	var cases []*caseJ
@@ -1086,6 +1090,11 @@ func main() {
 			if g.mutated {
 				c.Stream = "mutated-fixture"
 			}
+			if g.stream != "" {
+				c.Stream = g.stream
+				// components without a name are not well-formed CycloneDX/SPDX: correspondence and no-panic only
+				c.Emitted = g.stream == "sbom-document"
+			}
 			evs := observe(c, pk[from:to])
 			total += to - from
 			if evs != nil {
@@ -1109,6 +1118,28 @@ func main() {
 	}
 	if len(types) == 0 {
 		types = []string{"npm", "pypi", "deb", "snap", "maven", "golang"}
+	}
+	// every emitted purl type with names that differ from their lower-cased / normalised form: the index must return
+	// each package under exactly the type and name of its own purl
+	for _, t := range types {
+		var pkgs []*extractor.Package
+		for _, nm := range [][2]string{{"", "JSONStream"}, {"", "jsonstream"}, {"", "Mixed.Case_Name"}, {"@Scope", "Pkg"}, {"Org/Sub", "UPPER"}, {"", "needs %41 enc/x"}, {"", "JSONStream"}} {
+			pu := &purl.PackageURL{Type: t, Namespace: nm[0], Name: nm[1], Version: "1.0"}
+			if t == "conan" {
+				pu.Namespace = ""
+			}
+			pkgs = append(pkgs, &extractor.Package{Name: nm[1], Version: "1.0", Locations: []string{"lock/" + t},
+				Metadata: &fakeMeta{purl: pu}, Extractor: fakeExtractor{name: "fake/" + t}})
+		}
+		c := &caseJ{Stream: "synthetic-per-type", Emitted: false}
+		if evs := observe(c, pkgs); evs != nil {
+			allPanics = append(allPanics, evs...)
+			continue
+		}
+		for k := range c.Pkgs {
+			c.Pkgs[k].MetaKind = "fake"
+		}
+		cases = append(cases, c)
 	}
 	for i := 0; i < *nSynth; i++ {
 		n := []int{0, 1, 1, 2, 3, 5, 8}[r.Intn(7)]
